@@ -21,7 +21,7 @@ FUNCTIONS = ["pyoak.typing:is_instance", "pyoak.node:_check_runtime_types", "pyo
 
 FIELD_ANN: dict[str, Any] = {
     "i": int, "j": int, "f": float, "s": str, "b": bool, "oi": Optional[int], "t": Tuple[int, ...], "ft": Tuple[int, str],
-    "lit": Literal["a", "b"], "u": Union[int, str], "a": Any, "e": Color, "kid": Optional[VLeaf], "kids": Tuple[VLeaf, ...],
+    "lit": Literal["a", "b"], "u": Union[int, str], "a": Any, "e": Color, "kid": Optional[VLeaf], "kids": Tuple[VLeaf, ...], "nc": int,
 }
 
 
@@ -91,6 +91,7 @@ def _candidates() -> dict[str, list[tuple[str, Any]]]:
         "u": [("'x'", "x"), ("2", 2), ("1.5", 1.5), ("None", None)],
         "a": [("object", 3.25), ("None", None)],
         "e": [("Color.BLUE", Color.BLUE), ("1", 1), ("'RED'", "RED")],
+        "nc": [("5", 5), ("'x'", "x"), ("None", None), ("True", True)],
         "kid": [("None", None), ("VLeaf", leaf), ("VStr2", VStr2()), ("VSubLeaf", VSubLeaf(v=12)), ("1", 1)],
         "kids": [("()", ()), ("(VLeaf,)", (VLeaf(v=13),)), ("(VStr2,)", (VStr2(a="q"),)), ("(VLeaf,None)", (VLeaf(v=14), None)), ("VLeaf", VLeaf(v=15))],
     }
